@@ -54,8 +54,8 @@ var properties = map[string]Property{
 		Explanation: "Decided (nearly the whole property, because order is structural in this code): every map range reachable during evaluation only stores the keys at consecutive indices of a slice resliced to len(map), and every path from the end of that loop to the function's return applies an ascending byte-wise string sort to that slice or passes the false edge of len(map) > 1; callers of the key accessor only read the slice, index the same map with its elements and release it after the loop (no use after release); every loop in the evaluation steps is a complete ascending loop (or the worklist's complete descending push loop) whose only exit is the loop condition; recursive descent takes W[len-1], shrinks W[:len-1], pushes children from len-1 down to 0 and never applies the next step after pushing. reflect.MapKeys/MapRange are outside the modelled reflect subset (G-IMPORTS). Not decided: nothing of substance; assumes sort.StringSlice.Sort sorts byte-wise.",
 	},
 	"C01": {
-		Level: "other",
-		Rules: []string{"N-FORWARD", "N-PRESENCE", "N-KEYFLOW", "N-WALK", "N-VGSUM", "N-HEAD", "N-FUNCALL", "B-CHAIN", "O-SEQ", "O-LIFO", "O-MAPRANGE", "O-KEYSOURCE", "I-EXACT", "I-RANGE", "V-SELECT", "V-BOOL", "V-INPUT-PURE", "L-CLASS", "P-POST-NONEMPTY", "R-ITER-STABLE", "N-ENTRY", "N-APPLY", "G-IMPORTS"},
+		Level:       "other",
+		Rules:       []string{"N-FORWARD", "N-PRESENCE", "N-KEYFLOW", "N-WALK", "N-VGSUM", "N-HEAD", "N-FUNCALL", "B-CHAIN", "O-SEQ", "O-LIFO", "O-MAPRANGE", "O-KEYSOURCE", "I-EXACT", "I-RANGE", "V-SELECT", "V-BOOL", "V-INPUT-PURE", "L-CLASS", "P-POST-NONEMPTY", "R-ITER-STABLE", "N-ENTRY", "N-APPLY", "G-IMPORTS"},
 		Explanation: "Decided: structural NECESSARY conditions of the step-by-step definition, one group per clause of the statement — name: the stored member name reaches the lookup unchanged and presence is decided by comma-ok lookups, so a null member is a member (N-KEYFLOW, N-PRESENCE); every step hands the next step the same root, the caller's sink and exactly the child it selected, and the chain builder links every step behind the previous one, member nodes of a multi-name selector included (N-FORWARD, B-CHAIN, N-WALK); wildcard / multi-name / union loops are complete, in written resp. sorted-key order, over a list nobody overwrites meanwhile (O-SEQ, O-MAPRANGE, O-KEYSOURCE, R-ITER-STABLE); recursive descent is pre-order (last-in-first-out pop, children pushed in reverse, parent before children) and skips no container (O-LIFO); index and slice subscripts produce exactly Python's indices on every zone partition (I-EXACT, I-RANGE); the filter hands member i on exactly when its verdict is true, the verdict lists have length 1 or the member count, and the logical nodes compute AND / OR / NOT member by member over operands that see the same members (V-SELECT, L-CLASS, V-BOOL, V-INPUT-PURE); function nodes are called once with the selected value(s), and the argument chain's value-group flag is summarised before it is consulted (N-FUNCALL, N-VGSUM); a step that reports success has emitted at least one value and a step that emitted nothing reports an error (P-POST-NONEMPTY). NOT decided — and not decidable by this family of technique: that the returned sequence EQUALS the one the definition gives for every path and document; that needs an executable reference and comparison of values. A violation of one of these conditions breaks C01; their conjunction does not imply it (e.g. what a comparison considers equal, the text of error results, anything only a particular document shows).",
 		Assumptions: []string{"the conditions listed are necessary, not sufficient, for C01; see the per-clause properties C07–C11, C14 for what each rule covers"},
 	},
@@ -196,6 +196,12 @@ func buildEvidence(id string, prop Property, tier string, seed int, p *load.Prog
 		"repo": p.Dir, "packages": 1, "files": p.NFiles, "ssa_functions": len(p.Funcs),
 		"eval_functions": len(p.Eval), "parse_functions": len(p.ParsePhase), "callgraph_edges_from_package": p.CG.Edges,
 		"goarch": p.Opts.GOARCH, "tags": p.Opts.Tags,
+	}
+	if p.Normal != nil {
+		cov["analysed"].(map[string]interface{})["normaliser"] = map[string]interface{}{
+			"helpers_outside_known_table": p.Normal.Candidates, "expansions": p.Normal.Expanded,
+			"removed_after_expansion": p.Normal.Removed, "not_expanded": p.Normal.Skipped, "abandoned": p.Normal.Failed,
+		}
 	}
 	if prop.Level == "proof" {
 		cov["checker_cmd"] = fmt.Sprintf("/verif/run.sh %s --tier %s", id, tier)
